@@ -1153,6 +1153,8 @@ def c12(case, F):
         c, e = o["call"], o["end"]
         if e["k"] != "ret":
             what = c["a"]["what"]
+            if e["exc"]["type"] == "KeyboardInterrupt" and any(f.get("kind") == "signal" and f.get("role") == "driver" and c["t"] <= f["t"] <= e["t"] for f in F.faults):
+                continue  # the plan interrupted this very call with SIGINT: it may fail, the NEXT tracked operation must work
             v.append((_sig(case, F, "tracked_operation_failed", what=what, etype=e["exc"]["type"]), witness_text(case, F, "tracker operation %s raised %s: %s" % (what, e["exc"]["type"], e["exc"]["str"][:300]))))
             continue
         r = e["r"]
@@ -1184,7 +1186,9 @@ def c12(case, F):
     # one tracker for the whole tree (relaunches only after a kill)
     # (after a tracker death every process of the tree that needs one starts its own: the single-tracker
     #  clause is about trees whose tracker was not killed)
-    if not killed_times and len(trackers) > 1:
+    interrupted_launch = any(f.get("kind") == "signal" and f.get("role") == "driver" for f in F.faults)
+    # (a launch interrupted by SIGINT leaves a tracker that nobody is connected to: it sees EOF and exits at once; the next operation starts another)
+    if not killed_times and len(trackers) > 1 and not interrupted_launch:
         v.append((_sig(case, F, "several_trackers"), witness_text(case, F, "%d loky tracker processes were started in one tree with %d tracker kill(s): %s" % (len(trackers), len(killed_times), [(t["pid"], t["ppid"]) for t in trackers]))))
     # every member reports to the root's tracker (probes taken before any tracker kill)
     t_first_kill = min(killed_times) if killed_times else float("inf")
